@@ -32,9 +32,24 @@ class SimStreamReader(asyncio.StreamReader):
             if cap and (n < 0 or n > cap):
                 n = cap
                 self._sim.stat("short_reads")
-            return await super().read(n)
+            data = await super().read(n)
+            if not data:
+                # end of stream: a caller that comes back for it again and again inside ONE loop iteration never
+                # yields - no other task, no timer, not even this simulator gets to run any more
+                sim = self._sim
+                it = sim.loop.n_iters if sim is not None else -2
+                if it == self._spin_iter:
+                    self._spin += 1
+                    if self._spin >= self.SPIN_LIMIT:
+                        sim.rec("livelock", self._label, "EOF")
+                        sim.probe("reader_spins_on_end_of_stream")
+                        raise SimLivelock(f"{self._label}: read() returned end-of-stream {self._spin} times within one loop iteration")
+                else:
+                    self._spin_iter = it
+                    self._spin = 1
+            return data
         except BaseException as e:
-            if isinstance(e, (asyncio.CancelledError, GeneratorExit)):
+            if isinstance(e, (asyncio.CancelledError, GeneratorExit, SimLivelock)):
                 raise
             sim = self._sim
             it = sim.loop.n_iters
